@@ -198,6 +198,190 @@ theorem ballots_are_snapshot {ext : Ext} {fuel : Nat} {m : InstMsg} {s : State} 
   obtain ⟨H', hq⟩ := snap_run ext fuel ops _ H0 h0 hge hord
   exact hq.ballot id p a b hp hb hne
 
+/-! ## one ballot per address, the voting window, who may propose (parity with the cw3-fixed part) -/
+
+/-- **At most one ballot per address and proposal** (clause a): the ballot map of every proposal of a reachable world
+has no repeated key … -/
+theorem one_ballot {ext : Ext} {fuel : Nat} {w : World} (hr : Reachable ext fuel w) (id : Nat) :
+    AMap.NodupKeys (ballotsOf w.flex.core id) :=
+  (reachable_inv hr).wf.nodup id
+
+/-- … and a second vote of the same address on the same proposal is refused (`AlreadyVoted`), whatever the group says.
+(A recorded ballot never changes: `C05Flex.ballot_never_changes`.) -/
+theorem vote_twice_fails {s : State} {g : Cw4Group.State} {self : Addr} {blk : Block} {snd : Addr} {funds : List Coin}
+    {id : Nat} {v : Vote} {b : Ballot} (hb : (ballotsOf s.core id).get? snd = some b) :
+    (Cw3Flex.execute s g self blk snd funds (.vote id v)).isOk = false := by
+  cases h : Cw3Flex.execute s g self blk snd funds (.vote id v) with
+  | error e => rfl
+  | ok r =>
+    obtain ⟨s', out⟩ := r
+    obtain ⟨_, _, _, _, _, hnb, _⟩ := voter_ballot_is_snapshot h
+    rw [hb] at hnb; cases hnb
+
+/-- **Cast before expiry on a proposal not yet executed** (clause b): a Vote is accepted only while the proposal is
+not expired at the current block and its stored status is Open, Passed or Rejected (never Executed); the ballot then
+records exactly the weight the group reports for the sender at the proposal's start height, which is ≥ 1. -/
+theorem vote_requires_open_window {s s' : State} {g : Cw4Group.State} {self : Addr} {blk : Block} {snd : Addr}
+    {funds : List Coin} {id : Nat} {v : Vote} {out : List Out}
+    (h : Cw3Flex.execute s g self blk snd funds (.vote id v) = .ok (s', out)) :
+    ∃ p w, s.core.proposals.get? id = some p ∧ p.expires.isExpired blk = false ∧
+      (p.status = .open ∨ p.status = .passed ∨ p.status = .rejected) ∧ p.status ≠ .executed ∧
+      memberAt g snd p.startHeight = some w ∧ 1 ≤ w ∧ (ballotsOf s.core id).get? snd = none ∧
+      (ballotsOf s'.core id).get? snd = some ⟨w, v⟩ := by
+  obtain ⟨_, hc⟩ := execute_cases h
+  rcases hc with ⟨_, _, _, _, _, _, _, hm, _⟩ | ⟨id0, v0, hm, _, hv⟩ | ⟨_, _, _, hm, _⟩ | ⟨_, _, hm, _⟩ | ⟨hm, _⟩ <;> cases hm
+  obtain ⟨p, w, votes, st, hp, hvot, hexp, hw, hw1, hnb, _, _, hc'⟩ := vote_spec hv
+  refine ⟨p, w, hp, hexp, ?_, ?_, hw, hw1, hnb, ?_⟩
+  · cases hs : p.status <;> simp_all [votable]
+  · cases hs : p.status <;> simp_all [votable]
+  · rw [hc', ballotsOf_set]; simp
+
+/-- **Addresses with no (or zero) snapshot weight cannot vote** (clause d). -/
+theorem zero_weight_cannot_vote {s : State} {g : Cw4Group.State} {self : Addr} {blk : Block} {snd : Addr} {funds : List Coin}
+    {id : Nat} {v : Vote} {p : Proposal} (hp : s.core.proposals.get? id = some p)
+    (hz : (memberAt g snd p.startHeight).getD 0 = 0) : (Cw3Flex.execute s g self blk snd funds (.vote id v)).isOk = false := by
+  cases h : Cw3Flex.execute s g self blk snd funds (.vote id v) with
+  | error e => rfl
+  | ok r =>
+    obtain ⟨s', out⟩ := r
+    obtain ⟨p', w, hp', _, _, _, hw, hw1, _⟩ := vote_requires_open_window h
+    rw [hp] at hp'; cases hp'
+    rw [hw] at hz; simp at hz; omega
+
+/-- **A non-member of the group cannot propose** (clause d): `Propose` needs a current raw `members` entry of the sender
+(its weight may be 0). -/
+theorem outsider_cannot_propose {s : State} {g : Cw4Group.State} {self : Addr} {blk : Block} {snd : Addr} {funds : List Coin}
+    {t d : String} {msgs : List Msg} {latest : Option Expiration} (hz : memberNow g snd = none) :
+    (Cw3Flex.execute s g self blk snd funds (.propose t d msgs latest)).isOk = false := by
+  cases h : Cw3Flex.execute s g self blk snd funds (.propose t d msgs latest) with
+  | error e => rfl
+  | ok r =>
+    obtain ⟨s', out⟩ := r
+    obtain ⟨_, hc⟩ := execute_cases h
+    rcases hc with ⟨_, _, _, _, w, _, _, hm, hw, _⟩ | ⟨_, _, hm, _⟩ | ⟨_, _, _, hm, _⟩ | ⟨_, _, hm, _⟩ | ⟨hm, _⟩ <;> cases hm
+    rw [hz] at hw; cases hw
+
+/-- Every proposal's proposer holds a Yes ballot (the implicit first vote), and every other ballot weighs ≥ 1. -/
+def BallotInv (s : State) : Prop :=
+  Inv s ∧ (∀ id p, s.core.proposals.get? id = some p → ∃ w, (ballotsOf s.core id).get? p.proposer = some ⟨w, .yes⟩) ∧
+    ∀ id p a b, s.core.proposals.get? id = some p → (ballotsOf s.core id).get? a = some b → a ≠ p.proposer → 1 ≤ b.weight
+
+theorem ballotInv_step {s s' : State} {g : Cw4Group.State} {self : Addr} {blk : Block} {snd : Addr} {funds : List Coin}
+    {m : ExecMsg} {out : List Out} (hq : BallotInv s) (h : Cw3Flex.execute s g self blk snd funds m = .ok (s', out)) :
+    BallotInv s' := by
+  obtain ⟨hi, hy, hw⟩ := hq
+  refine ⟨execute_inv hi h, ?_, ?_⟩
+  all_goals
+    obtain ⟨_, hc⟩ := execute_cases h
+    rcases hc with ⟨t, d, msgs, latest, w0, total, id0, _, _, _, _, _, hp⟩ | ⟨id0, v, _, _, hv⟩ | ⟨id0, p0, msgs, _, _, hex, _⟩ |
+      ⟨id0, p0, _, _, hcl, _⟩ | ⟨_, _, rfl, _⟩
+  · obtain ⟨expires, st, _, _, hid, _, hc'⟩ := propose_spec hp
+    have hnone : s.core.proposals.get? id0 = none := hi.wf.fresh (by omega)
+    have hb0 : ballotsOf s.core id0 = [] := hi.wf.noBallots id0 hnone
+    intro id p hpp
+    simp only [hc', AMap.get?_set] at hpp
+    simp only [hc', ballotsOf_set]
+    by_cases e : id0 = id
+    · simp only [e, if_true, Option.some.injEq] at hpp ⊢
+      rw [← e, hb0]; subst hpp
+      exact ⟨w0, by simp [AMap.set, AMap.get?]⟩
+    · simp only [e, if_false] at hpp ⊢; exact hy id p hpp
+  · obtain ⟨p1, w1, votes, st, hp1, _, _, _, _, hnb, _, _, hc'⟩ := vote_spec hv
+    intro id p hpp
+    simp only [hc', AMap.get?_set] at hpp
+    simp only [hc', ballotsOf_set]
+    by_cases e : id0 = id
+    · simp only [e, if_true, Option.some.injEq] at hpp ⊢
+      subst hpp; subst e
+      obtain ⟨w, hb⟩ := hy id0 p1 hp1
+      refine ⟨w, ?_⟩
+      simp only
+      rw [AMap.get?_set]
+      by_cases ea : snd = p1.proposer
+      · rw [ea] at hnb; rw [hnb] at hb; cases hb
+      · simp only [ea, if_false]; exact hb
+    · simp only [e, if_false] at hpp ⊢; exact hy id p hpp
+  · obtain ⟨p1, hp1, _, _, _, hc'⟩ := execute_spec hex
+    intro id p hpp
+    simp only [hc', AMap.get?_set] at hpp
+    simp only [hc', ballotsOf_frame]
+    by_cases e : id0 = id
+    · simp only [e, if_true, Option.some.injEq] at hpp; subst hpp; subst e; exact hy id0 p1 hp1
+    · simp only [e, if_false] at hpp; exact hy id p hpp
+  · obtain ⟨p1, _, hp1, _, _, _, _, _, _, hc'⟩ := close_spec hcl
+    intro id p hpp
+    simp only [hc', AMap.get?_set] at hpp
+    simp only [hc', ballotsOf_frame]
+    by_cases e : id0 = id
+    · simp only [e, if_true, Option.some.injEq] at hpp; subst hpp; subst e; exact hy id0 p1 hp1
+    · simp only [e, if_false] at hpp; exact hy id p hpp
+  · exact hy
+  · obtain ⟨expires, st, _, _, hid, _, hc'⟩ := propose_spec hp
+    have hnone : s.core.proposals.get? id0 = none := hi.wf.fresh (by omega)
+    have hb0 : ballotsOf s.core id0 = [] := hi.wf.noBallots id0 hnone
+    intro id p a b hpp hb hne
+    simp only [hc', AMap.get?_set] at hpp
+    simp only [hc', ballotsOf_set] at hb
+    by_cases e : id0 = id
+    · simp only [e, if_true, Option.some.injEq] at hpp hb
+      rw [← e, hb0] at hb
+      simp [AMap.set, AMap.get?] at hb
+      subst hpp
+      exact absurd hb.1.symm hne
+    · simp only [e, if_false] at hpp hb; exact hw id p a b hpp hb hne
+  · obtain ⟨p1, w1, votes, st, hp1, _, _, _, hw1, hnb, _, _, hc'⟩ := vote_spec hv
+    intro id p a b hpp hb hne
+    simp only [hc', AMap.get?_set] at hpp
+    simp only [hc', ballotsOf_set] at hb
+    by_cases e : id0 = id
+    · simp only [e, if_true, Option.some.injEq] at hpp hb
+      subst hpp; subst e
+      rw [AMap.get?_set] at hb
+      by_cases ea : snd = a
+      · simp only [ea, if_true, Option.some.injEq] at hb; subst hb; exact hw1
+      · simp only [ea, if_false] at hb; exact hw id0 p1 a b hp1 hb hne
+    · simp only [e, if_false] at hpp hb; exact hw id p a b hpp hb hne
+  · obtain ⟨p1, hp1, _, _, _, hc'⟩ := execute_spec hex
+    intro id p a b hpp hb hne
+    simp only [hc', AMap.get?_set] at hpp
+    simp only [hc', ballotsOf_frame] at hb
+    by_cases e : id0 = id
+    · simp only [e, if_true, Option.some.injEq] at hpp; subst hpp; subst e; exact hw id0 p1 a b hp1 hb hne
+    · simp only [e, if_false] at hpp; exact hw id p a b hpp hb hne
+  · obtain ⟨p1, _, hp1, _, _, _, _, _, _, hc'⟩ := close_spec hcl
+    intro id p a b hpp hb hne
+    simp only [hc', AMap.get?_set] at hpp
+    simp only [hc', ballotsOf_frame] at hb
+    by_cases e : id0 = id
+    · simp only [e, if_true, Option.some.injEq] at hpp; subst hpp; subst e; exact hw id0 p1 a b hp1 hb hne
+    · simp only [e, if_false] at hpp; exact hw id p a b hpp hb hne
+  · exact hw
+
+theorem reachable_ballotInv {ext : Ext} {fuel : Nat} {w : World} (hr : Reachable ext fuel w) : BallotInv w.flex := by
+  obtain ⟨m, s, g, t, bank, self, ga, ta, h0, ops, hi, rfl⟩ := hr
+  refine run_state_inv ext BallotInv (fun _ _ _ _ _ _ _ _ _ hq h => ballotInv_step hq h) fuel ops _
+    ⟨instantiate_inv hi, ?_, ?_⟩
+  · intro id p hp; simp [World.init, instantiate_core hi, Core.empty] at hp
+  · intro id p a b hp; simp [World.init, instantiate_core hi, Core.empty] at hp
+
+/-- **The proposer's ballot is a Yes** in every reachable world (any history, any block order): the implicit first
+vote recorded by `Propose`, never changed since the proposer cannot vote again. -/
+theorem proposer_ballot_is_yes {ext : Ext} {fuel : Nat} {w : World} (hr : Reachable ext fuel w) {id : Nat} {p : Proposal}
+    (hp : w.flex.core.proposals.get? id = some p) : ∃ wt, (ballotsOf w.flex.core id).get? p.proposer = some ⟨wt, .yes⟩ :=
+  (reachable_ballotInv hr).2.1 id p hp
+
+/-- **Only the proposer's implicit Yes may carry zero weight** (clause d): every recorded ballot has weight ≥ 1 or is
+the Yes ballot of the proposal's proposer. -/
+theorem zero_weight_ballot_is_proposers_yes {ext : Ext} {fuel : Nat} {w : World} (hr : Reachable ext fuel w)
+    {id : Nat} {p : Proposal} {a : Addr} {b : Ballot}
+    (hp : w.flex.core.proposals.get? id = some p) (hb : (ballotsOf w.flex.core id).get? a = some b) :
+    1 ≤ b.weight ∨ (a = p.proposer ∧ b.vote = .yes) := by
+  by_cases e : a = p.proposer
+  · right
+    obtain ⟨wt, hy⟩ := proposer_ballot_is_yes hr hp
+    subst e; rw [hb] at hy; cases hy; exact ⟨rfl, rfl⟩
+  · exact Or.inl ((reachable_ballotInv hr).2.2 id p a b hp hb e)
+
 /-! ## later changes of the group -/
 
 /-- Dispatching the group's hook messages never changes the multisig, the group, the bank or the token
@@ -625,6 +809,26 @@ example :
     CleanStart w.log 1 11 ∧
     ((w.flex.core.proposals.get? 1).map fun p => (p.startHeight, p.totalWeight)) = some (11, 7) ∧
     weightSum (ballotsOf w.flex.core 1) = 7 ∧ ¬ CleanStart Cex.final.log 1 10 := by
+  decide
+
+/-- non-vacuity of `vote_twice_fails`, `outsider_cannot_propose`, `zero_weight_cannot_vote`, `proposer_ballot_is_yes`
+on the reachable world `Cex.final`: `b` already holds a ballot on proposal 1, `x` is not in the group (no entry now, no
+weight at height 10), and the proposer `a` holds a Yes ballot -/
+example : Reachable Cex.noExt 10 Cex.final ∧
+    ((ballotsOf Cex.final.flex.core 1).get? "b").isSome = true ∧
+    (Cw3Flex.execute Cex.final.flex Cex.final.group "ms" ⟨11, 0⟩ "b" [] (.vote 1 .yes)).isOk = false ∧
+    memberNow Cex.final.group "x" = none ∧ (memberAt Cex.final.group "x" 10).getD 0 = 0 ∧
+    (Cw3Flex.execute Cex.final.flex Cex.final.group "ms" ⟨11, 0⟩ "x" [] (.propose "t" "d" [] none)).isOk = false ∧
+    (Cw3Flex.execute Cex.final.flex Cex.final.group "ms" ⟨11, 0⟩ "x" [] (.vote 1 .yes)).isOk = false ∧
+    (ballotsOf Cex.final.flex.core 1).get? "a" = some ⟨3, .yes⟩ :=
+  ⟨⟨Cex.inst, Cex.flex0, Cex.group0, Cex.token0, _, "ms", "grp", "tok", 5, Cex.ops, rfl, rfl⟩,
+   by decide, by decide, by decide, by decide, by decide, by decide, by decide⟩
+
+/-- non-vacuity of `vote_requires_open_window`: `b`'s vote in block 11 (third op of `Cex.ops`) is accepted in the world
+after the first two ops -/
+example :
+    let w := run Cex.noExt 10 Cex.world0 (Cex.ops.take 2)
+    (Cw3Flex.execute w.flex w.group "ms" ⟨11, 0⟩ "b" [] (.vote 1 .no)).isOk = true := by
   decide
 
 end CwPlus.Props.C06Flex
